@@ -76,7 +76,7 @@ MapApplicable(prog) ==
 
 Common(c) ==
   F("error_type", c.out.cls \notin {"ok", "jaqal_error"})
-  \cup F("accepted", ValidIn(c.inp, c.ovr) /\ c.out.cls # "ok" /\ (c.site = "fill_in_map" => MapApplicable(c.inp)))
+  \cup F("accepted", ValidIn(c.inp, c.ovr) /\ c.out.cls # "ok" /\ (c.site \in {"fill_in_map", "fill_in_let_map"} => MapApplicable(c.inp)))
 
 ExpandMacros(c, preserve) ==
   LET i == c.inp  o == c.out.prog
@@ -124,6 +124,19 @@ FillInMap(c) ==
           \cup F("macros_kept", MacroMeanings(o, <<>>) # MacroMeanings(i, <<>>))
           \cup F("imports_carried", SeqToSet(o.imports) # SeqToSet(i.imports))
           \cup F("legal_nesting", LegalNesting(i) /\ ~LegalNesting(o))
+
+\* fill_in_map applied to the result of fill_in_let(override): every reference is a fundamental qubit and the meaning is
+\* the meaning of the input under the override (C06 with let-valued bounds that are overridden)
+FillInLetMap(c) ==
+  LET i == c.inp  o == c.out.prog
+      v == ValidIn(i, c.ovr) /\ MapApplicable(i)
+  IN Common(c)
+     \cup IF ~Ok(c) THEN {}
+     ELSE F("no_alias_refs", AnyAliasRef(o))
+          \cup F("no_let_refs", AnyLetRef(o))
+          \cup F("refs_follow_decls", ~ObjRefsFollowDecls(o))
+          \cup F("meaning_mod_sub", v /\ MeaningModSub(o, <<>>) # MeaningModSub(i, c.ovr))
+          \cup F("macros_kept", v /\ MacroMeanings(o, <<>>) # MacroMeanings(i, c.ovr))
 
 ExpandSub(c) ==
   LET i == c.inp  o == c.out.prog IN
@@ -186,6 +199,7 @@ Clauses(c) ==
     [] c.site = "expand_macros_preserve" -> ExpandMacros(c, TRUE)
     [] c.site = "fill_in_let" -> FillInLet(c)
     [] c.site = "fill_in_map" -> FillInMap(c)
+    [] c.site = "fill_in_let_map" -> FillInLetMap(c)
     [] c.site = "expand_subcircuits" -> ExpandSub(c)
     [] OTHER -> {"unknown_site"}
 
